@@ -251,7 +251,17 @@ class EpisodeSim:
             actions = torch.tensor(hist, dtype=torch.long).reshape(B, T)
             with run.guard(name, f"get_reward ({phase})", B=B):
                 rew = env.get_reward(td, actions)
-            rew = torch.as_tensor(rew).reshape(-1)
+            rew = torch.as_tensor(rew).reshape(-1).clone()
+            # the reward is reported more than once in practice (select-best, then the policy's forward):
+            # asking again for the same finished state must give the same objective
+            with run.guard(name, f"get_reward again ({phase})", B=B):
+                rew_again = torch.as_tensor(env.get_reward(td, actions)).reshape(-1)
+            if rew.numel() == rew_again.numel() and not torch.allclose(rew, rew_again, rtol=1e-6, atol=1e-6, equal_nan=True):
+                r = int(torch.nonzero(~torch.isclose(rew, rew_again, rtol=1e-6, atol=1e-6, equal_nan=True))[0])
+                run.violate(name, "reward_not_repeatable", f"row {r}: get_reward on the same finished state returned "
+                            f"{float(rew[r])!r} and then {float(rew_again[r])!r}", constraint="repeatable",
+                            first=float(rew[r]), second=float(rew_again[r]), cfg=cfg, mode=cfg.get("kw", {}))
+                raise StopRun()
             if rew.numel() != B:
                 run.violate(name, "reward_shape", f"get_reward returned {rew.numel()} values for a batch of {B}",
                             constraint="shape", cfg=cfg)
